@@ -194,6 +194,19 @@ def run(tier, seed):
                 c["n"], c["cores"] = 5, 2
                 c["seeds"] = [s + 17 * j for j, s in enumerate(c["seeds"])]
                 dist["more_chains_than_cores"] = dist.get("more_chains_than_cores", 0) + 1
+            if i == 4 or i % 9 == 8:
+                # a mix that starts with RWMH; the HMC chains after it get keywords only HMC knows
+                c["n"], c["kinds"], c["kw_mode"] = 3, ["rwmh", "hmc", "hmc"], "list"
+                for key in ("seeds", "ims", "means"):
+                    while len(c[key]) < 3:
+                        c[key].append(copy.deepcopy(c[key][0]))
+                    c[key] = c[key][:3]
+                c["kws"] = [{"stepsize": 0.5, "online_thinning": 1, "disable_progressbar": True},
+                            {"stepsize": 0.3, "online_thinning": 2, "disable_progressbar": True, "amount_of_steps": 4, "integrator": "3s", "randomize_stepsize": False},
+                            {"stepsize": 0.2, "online_thinning": 1, "disable_progressbar": True, "amount_of_steps": 7, "integrator": "4s", "randomize_stepsize": True}]
+                c["seeds"] = [s + 29 * j for j, s in enumerate(c["seeds"])]
+                c.pop("cores", None)
+                dist["rwmh_first_mix"] = dist.get("rwmh_first_mix", 0) + 1
             if i == 2:
                 c["im_mode"] = "in-kwargs"
                 if c["kw_mode"] == "none":
